@@ -356,6 +356,18 @@ FIXED_CLI = [
      [('p', 'sym', ('o', 7)), ('q', 'sym', ('o', 16)), ('n', 8, 16), ('m', 8, 56)]),
 ]
 
+RUNTIME_PROGS = [
+    'int main(void) { out_l(-0.0 ? 1 : 2); out_l(0.0 ? 1 : 2); out_l(-0.0f ? 1 : 2); out_l((0.0 * -1) ? 1 : 2); out_l(1e-320 ? 1 : 2); out_l(0.5 ? 1 : 2);\n'
+    '  out_l(-0.0 || 0); out_l(-0.0 && 1); out_l(!-0.0); out_l(1e-320 && 1); out_l((_Bool)-0.0); out_l((_Bool)1e-320); return 0; }\n',
+    'int s1(unsigned char c) { switch (c) { case 257: return 1; case 1: return 2; case 255: return 3; case -1: return 4; } return 0; }\n'
+    'int s2(short x) { switch (x) { case 0x12345: return 1; case 0x2345: return 2; case -32768: return 3; case 32768: return 4; } return 0; }\n'
+    'int s3(_Bool b) { switch (b) { case 2: return 1; case 1: return 2; case 0: return 3; } return 0; }\n'
+    'int s4(signed char c) { switch (c) { case 200: return 1; case -56: return 2; case 127: return 3; } return 0; }\n'
+    'int main(void) { out_l(s1(1)); out_l(s1(255)); out_l(s1(0)); out_l(s2(0x2345)); out_l(s2(-32768)); out_l(s2(0)); out_l(s3(1)); out_l(s3(0)); out_l(s4(-56)); out_l(s4(127)); return 0; }\n',
+    'enum { K = 0xffffffffffffffffull > 1, L = -1ll > 0ull, M = 0x8000000000000000ull >= 0x7fffffffffffffffull, N = (unsigned char)300 == 44 };\n'
+    'int main(void) { out_l(K); out_l(L); out_l(M); out_l(N); out_l(sizeof(char[(0xffffffffffffffffull > 1) ? 3 : 7])); out_l(1u - 2 > 0); out_l(-1 >> 1); out_l((short)0x18000 < 0); return 0; }\n',
+]
+
 REJECT_CLI = [
     # constant contexts that must be diagnosed (exit status 1, no crash)
     'int a = 18446744073709551616;\n', 'int a = 0x10000000000000000;\n', 'int a = 99999999999999999999999999;\n', 'long a = 0777777777777777777777777;\n',
@@ -625,6 +637,36 @@ def run(ctx):
                 hdr = '/* expect: %s %s %r */\n' % want if want else ''
                 if viol('%s: `%s` -> exit status %d %s' % (key, src.strip(), rc, detail), hdr + src, key):
                     cli_ok = False
+        # run-time twins executed under the Coq-defined IL semantics (ocaml/qbe oracle) and compared with a gcc-built native run:
+        # constant conditions of ?: incl. floating ones, logical operators, case labels on narrow controlling types
+        qexe = ctx.oracle('qbe')
+        if qexe:
+            for pi, psrc in enumerate(RUNTIME_PROGS):
+                wd = os.path.join(ctx.tmp, 'rt%d' % pi)
+                os.makedirs(wd, exist_ok=True)
+                cfile = os.path.join(wd, 'p.c')
+                open(cfile, 'w').write('void out_l(long);\n' + psrc)
+                open(os.path.join(wd, 'shim.c'), 'w').write('#include <stdio.h>\nvoid out_l(long v){ printf("out_l %ld\\n", v); }\n')
+                rcg, og, eg = sh('gcc -std=c11 -O0 -w -o %s/ref %s %s/shim.c && %s/ref' % (wd, cfile, wd, wd), timeout=60)
+                rc, out, err = ctx.qbe(open(cfile).read())
+                stats['runtime_twins'] = stats.get('runtime_twins', 0) + 1
+                if rcg != 0:
+                    ctx.notes.append('run-time twin %d: reference build failed: %s' % (pi, txt(eg)[:200]))
+                    continue
+                if rc != 0:
+                    cli_ok = False
+                    viol('valid run-time twin program rejected: %s' % err[:200], open(cfile).read(), 'runtime-twin-rejected')
+                    continue
+                ilf = os.path.join(wd, 'p.ssa')
+                open(ilf, 'w').write(out)
+                rr, ro, re_ = sh([qexe, 'run', ilf], timeout=60)
+                got = [l for l in txt(ro).split('\n') if l.startswith('out_l')]
+                want = [l for l in txt(og).split('\n') if l.startswith('out_l')]
+                if got != want:
+                    cli_ok = False
+                    i = next((i for i, (a, b) in enumerate(zip(got, want)) if a != b), min(len(got), len(want)))
+                    viol('compiled program computes %r where gcc computes %r (observation %d): constant folding / case label conversion differs from run-time evaluation'
+                         % (got[i:i + 1], want[i:i + 1], i), open(cfile).read(), 'runtime-twin:%d' % pi)
         ctx.ob('K-CLI: %d expressions x 8 folding contexts x 3 targets agree with the specification (%d observations); corpus %d, diagnostics %d'
                % (stats['cli_exprs'], stats['cli_observations'], stats['fixed_cli'], stats['reject_cli']), cli_ok)
         if not unit_available:
